@@ -217,6 +217,41 @@ def Spec.BundleComplete (ms : List (Platform × Nat)) (bundled : List Nat) : Pro
 instance (ms bundled) : Decidable (Spec.BundleComplete ms bundled) := by
   unfold Spec.BundleComplete; infer_instance
 
+/-! ## 6b. v1tar.MultiWrite: the entries written for a set of images -/
+
+/-- an image as MultiWrite sees it: config blob name and size, layer file names (`<hex>.tar.gz`) and sizes -/
+structure Img where
+  cfgName : Text
+  cfgSize : Nat
+  layers : List (Text × Nat)
+deriving DecidableEq, Repr
+
+/-- the layer loop: a layer whose digest was seen before is skipped (`seenLayerDigests`) -/
+def writeLayers : List Text → List (Text × Nat) → List Entry × List Text
+  | seen, [] => ([], seen)
+  | seen, l :: ls =>
+    if l.1 ∈ seen then writeLayers seen ls
+    else ((⟨l.1, l.2⟩ : Entry) :: (writeLayers (l.1 :: seen) ls).1, (writeLayers (l.1 :: seen) ls).2)
+
+/-- the image loop (in the iteration order of the map) -/
+def writeImages : List Text → List Img → List Entry
+  | _, [] => []
+  | seen, im :: rest =>
+    (⟨im.cfgName, im.cfgSize⟩ : Entry) :: (writeLayers seen im.layers).1 ++ writeImages (writeLayers seen im.layers).2 rest
+
+def manifestJson : Text := "manifest.json".toList
+
+/-- everything MultiWrite writes before closing the tar writer -/
+def multiWrite (imgs : List Img) (manifestSize : Nat) : List Entry :=
+  writeImages [] imgs ++ [⟨manifestJson, manifestSize⟩]
+
+/-- the blobs of an image can be found in an entry list -/
+def Spec.HoldsImage (names : List Text) (im : Img) : Prop :=
+  im.cfgName ∈ names ∧ ∀ l ∈ im.layers, l.1 ∈ names
+
+instance (names im) : Decidable (Spec.HoldsImage names im) := by
+  unfold Spec.HoldsImage; infer_instance
+
 /-! ## 7. BuildImageFromLayers: the image config -/
 
 structure ImageCfg where
